@@ -848,6 +848,17 @@ class SymBytes:
     def translate(self, table):
         return mkbytes(table[b] for b in self.items)
 
+    def __getattr__(self, name):
+        """any other bytes method: fork over every feasible content (sound; loud when the bound is exceeded)"""
+        if name.startswith("__") or not hasattr(bytes, name):
+            raise AttributeError("'bytes' object has no attribute %r" % name)
+
+        def call(*a, **k):
+            conc = bytes(concretize(b) for b in self.items)
+            a = tuple(bytes(concretize(b) for b in x.items) if isinstance(x, SymBytes) else concretize(x) for x in a)
+            return getattr(conc, name)(*a, **k)
+        return call
+
     def _case(self, lo, hi, delta):
         out = []
         for b in self.items:
@@ -970,3 +981,45 @@ class ShByteArray:
         return "<shbytearray %d>" % len(self.items)
 
     __hash__ = None
+
+    def clear(self):
+        self.items.clear()
+
+    def copy(self):
+        r = ShByteArray()
+        r.items = list(self.items)
+        return r
+
+    def pop(self, i=-1):
+        return self.items.pop(concretize(i))
+
+    def insert(self, i, b):
+        self.items.insert(concretize(i), b)
+
+    def reverse(self):
+        self.items.reverse()
+
+    def __delitem__(self, i):
+        if isinstance(i, slice):
+            del self.items[slice(concretize(i.start), concretize(i.stop), concretize(i.step))]
+        else:
+            del self.items[concretize(i)]
+
+    def __contains__(self, x):
+        return SymBytes(self.items).__contains__(x)
+
+    def __mul__(self, n):
+        r = ShByteArray()
+        r.items = self.items * concretize(n)
+        return r
+
+    def __radd__(self, o):
+        r = ShByteArray()
+        r.items = list(_lift_bytes(o)) + self.items
+        return r
+
+    def __getattr__(self, name):
+        # remaining bytes methods (find, startswith, rstrip, decode, ...) behave as on the immutable snapshot
+        if name.startswith("__"):
+            raise AttributeError(name)
+        return getattr(SymBytes(self.items), name)
